@@ -205,7 +205,11 @@ def _split_sexprs(text):
 
 # ------------------------------------------------------------------------------------------------ running one query
 def run_z3(smt2, timeout_s):
-    s = z3.Solver()
+    # a fresh context per query: nlsat's variable order follows the AST numbering of the context, and the workers are
+    # forked from a parent whose main context already holds the explored terms -- with the shared context the same
+    # query text was decided in 3 s in one tier and not in 600 s in the other
+    ctx = z3.Context()
+    s = z3.Solver(ctx=ctx)
     s.set("timeout", int(timeout_s * 1000))
     s.from_string(smt2)
     r = s.check()
